@@ -375,6 +375,8 @@ func main() {
 			return shallowOp(c)
 		case "negotiate":
 			return negotiateOp(c)
+		case "v2serve":
+			return v2serveOp(c)
 		case "noop":
 			return lib.Ok(), nil
 		}
